@@ -28,7 +28,7 @@ RULE = ("one case = solver configuration (class, knobs) + matrix class + 1-2 sol
         "= at least one solve follows a second update, or a fallback/restart/initial-guess path was taken")
 PROBES = ["fallback_fired_forced", "fallback_fired_natural", "switched_back_to_cholesky", "cg_converged_at_iteration_0",
           "cg_restart_taken", "two_level_multigrid", "solve_after_second_update", "two_objects_interleaved", "dependent_columns",
-          "auto_manual_override", "fortran_ordered_matrix", "auto_returned_cholesky", "auto_returned_ldl", "auto_returned_lu", "auto_returned_diagonal", "auto_returned_sparselu",
+          "auto_manual_override", "fortran_ordered_matrix", "block_cg_rank_deficient_at_rounding_limit", "auto_returned_cholesky", "auto_returned_ldl", "auto_returned_lu", "auto_returned_diagonal", "auto_returned_sparselu",
           "trans_T_complex", "trans_H_complex", "rhs_fortran_order", "rhs_strided_view", "matrix_given_to_constructor", "one_by_one_matrix"]
 FAULT_KINDS = ["cholesky_fail_forced", "cholesky_fail_natural"]
 COMPONENTS = {"real": ["pymoto.solvers: SolverDiagonal, SolverDenseQR, SolverDenseLU, SolverDenseCholesky, SolverDenseLDL, "
@@ -228,11 +228,74 @@ def is_iterative(case):
     return case["solver"].startswith("cg")
 
 
+N_STAG_FAMILY = 40
+_STAG_LITERAL = dict(
+    A=[[214247.6288250246, 0.0, -64492.60499587253], [0.0, 71704.3000077961, 0.0], [-64492.60499587253, 0.0, 136296.85729065168]],
+    rhs=[[0.01705670144824345, 0.9236962599884764, 0.9038089248220045], [0.0, 0.0, 0.0],
+         [0.27417158854754153, 0.619360891958119, -0.9600389450905751]],
+    x0=[[0.15688539270932036, -0.03220097049798941, -0.16159011536455442], [0.0, 0.0, 0.0],
+        [0.1720544164345935, -0.035313746809320694, -0.17722197515001228]])
+
+
+def enumerated_count(tier):
+    # block CG at the limit of what floating point can reach: more right-hand sides than coupled dofs and an initial guess of
+    # much larger magnitude than the solution (what LinSolve hands over after the load level dropped).  Case 0 is the literal input
+    # of fixed finding C05-F3 (soak VERIF_SEED=31, found through C07), the others are generated the same way
+    return N_STAG_FAMILY
+
+
+def enumerated_case(i, tier):
+    return dict(stagnation=i, solver="cg_none", cls="spd", cplx=False, sparse="csc", n=3, knobs=dict(tol=1e-11), ops=[])
+
+
+def run_stagnation(case):
+    """ CG(tol=1e-11).solve(B, x0) must return (not raise) with a residual the data allow """
+    i = int(case["stagnation"])
+    res = dict(trace=[f"stagnation:{min(i, 1)}"], nontrivial=True, steps=1, probes={"block_cg_rank_deficient_at_rounding_limit": 1}, faults={},
+               skipped={}, violations=[], margins={})
+    if i == 0:
+        A, B, X0 = (np.array(_STAG_LITERAL[k]) for k in ("A", "rhs", "x0"))
+    else:
+        rng = sub_rng(0x5A, i)
+        n = 3 + i % 3
+        M = rng.standard_normal((n, n))
+        A = (M @ M.T + n * np.eye(n)) * 1e5
+        dec = list(rng.permutation(n)[:n - 2])        # all but two dofs are decoupled
+        for d in dec:
+            A[d, :] = 0.0
+            A[:, d] = 0.0
+            A[d, d] = 7e4 * (1 + rng.random())
+        B = rng.uniform(-1, 1, (n, 3))
+        B[dec, :] = 0.0
+        X0 = rng.uniform(-0.2, 0.2, (n, 3))
+        X0[dec, :] = 0.0
+    S = pym.solvers
+    try:
+        sol = S.CG(tol=1e-11, maxit=300, preconditioner=S.Preconditioner(), verbosity=0)
+        sol.update(sps.csc_matrix(A))
+        X = sol.solve(B.copy(), x0=X0.copy())
+    except Exception as ex:  # noqa
+        res["violations"].append(dict(cls=["C05", "exception"], msg=f"CG.solve raised {type(ex).__name__}: {str(ex)[:120]} for a block of "
+                                      f"3 right-hand sides on a {A.shape[0]}x{A.shape[0]} system with 2 coupled dofs and an initial guess",
+                                      at=0, features=["solver=cg_none", "stagnation_family"]))
+        return res
+    r = float(np.max(np.linalg.norm(A @ X - B, axis=0) / np.linalg.norm(B, axis=0)))
+    res["margins"]["stagnation_residual_over_1e-9"] = r / 1e-9
+    if not r <= 1e-9:
+        res["violations"].append(dict(cls=["C05", "residual"], msg=f"relative residual {r:.3e} > 1e-9 (stagnation family {i})", at=0,
+                                      features=["solver=cg_none", "stagnation_family"]))
+    res["detail"] = f"{r:.3e}"
+    return res
+
+
 def run(case):
     warnings.simplefilter("ignore")
     np.seterr(all="ignore")
     import contextlib
     import io
+    if "stagnation" in case:
+        seams.reset_run([5, 3])
+        return run_stagnation(case)
     seams.reset_run([5, case["n"]])
     res = dict(trace=[f"S:{case['solver']}:{case['cls']}:{'c' if case['cplx'] else 'r'}:{case['sparse']}"], nontrivial=False,
                steps=0, probes={}, faults={}, skipped={}, violations=[], margins={})
